@@ -916,8 +916,81 @@ def rule_I4(ctx):
            "" if ok else "the chain lookup is unchecked: a sample whose window starts beyond its chain aborts the whole export", inst="beyond-chain")
 
 
+def _memo_resets(prog):
+    """(class, attr, node, qualname) for every statement outside a constructor that puts a memo slot back to its empty value.  A memo
+    slot is a `self._x` that a constructor (__init__ / __post_init__) sets to an empty value (None, False, an empty display) and that
+    some other method of the class (or of a base / subclass) fills with something else"""
+    def empty(v):
+        return (isinstance(v, ast.Constant) and v.value in (None, False)) or (isinstance(v, (ast.List, ast.Dict, ast.Tuple, ast.Set)) and not getattr(v, "elts", None) and not getattr(v, "keys", None)) \
+            or (isinstance(v, ast.Call) and isinstance(v.func, ast.Name) and v.func.id in ("list", "dict", "set") and not v.args and not v.keywords)
+
+    ctor_slots = set()
+    stores = []
+    for m, q, fn in prog.all_functions():
+        if "." not in q:
+            continue
+        for a in own_nodes(fn):
+            if isinstance(a, ast.Assign):
+                for t in a.targets:
+                    if isinstance(t, ast.Attribute) and isinstance(t.value, ast.Name) and t.attr.startswith("_") and not t.attr.startswith("__"):
+                        stores.append((t.attr, t.value.id, a, q, fn))
+                        if fn.name in ("__init__", "__post_init__") and t.value.id == "self" and empty(a.value):
+                            ctor_slots.add(t.attr)
+    filled = {attr for attr, recv, a, q, fn in stores if attr in ctor_slots and fn.name not in ("__init__", "__post_init__") and not empty(a.value)}
+    out = []
+    for attr, recv, a, q, fn in stores:
+        if attr in filled and fn.name not in ("__init__", "__post_init__") and empty(a.value):
+            out.append((attr, a, q))
+    return sorted(filled), out
+
+
 def rule_I2(ctx):
     """accumulating / position-dependent realisers run once: guarded by a flag they set on every path"""
+    slots, resets = _memo_resets(ctx.prog)
+    ctx.fact("I2", "memo_slots", slots)
+    if len(slots) < 4:
+        raise AnalysisError("I2", "-", f"only {len(slots)} memo slots recognised (confirmed: 6)")
+    # which of those slots are caches of a lazily realised value: filled inside a property, or inside a helper a property of the same
+    # class calls; their state may steer nothing but that realisation - what `ls` shows must not depend on whether an earlier request
+    # happened to realise the element already
+    fillers = {}
+    for m_, q_, fn_ in ctx.prog.all_functions():
+        if "." not in q_:
+            continue
+        cls_ = q_.rsplit(".", 1)[0]
+        for a_ in own_nodes(fn_):
+            if isinstance(a_, ast.Assign):
+                for t_ in a_.targets:
+                    if isinstance(t_, ast.Attribute) and isinstance(t_.value, ast.Name) and t_.value.id == "self" and t_.attr in slots and fn_.name not in ("__init__", "__post_init__"):
+                        fillers.setdefault(t_.attr, set()).add((cls_, fn_.name))
+    prop_calls = set()
+    props = set()
+    for m_, q_, fn_ in ctx.prog.all_functions():
+        if "." in q_ and ctx.prog.is_property(fn_):
+            cls_ = q_.rsplit(".", 1)[0]
+            props.add((cls_, fn_.name))
+            for c_ in own_nodes(fn_):
+                if isinstance(c_, ast.Call) and isinstance(c_.func, ast.Attribute) and isinstance(c_.func.value, ast.Name) and c_.func.value.id == "self":
+                    prop_calls.add((cls_, c_.func.attr))
+    lazy = {a_ for a_, fs_ in fillers.items() if fs_ and all(f_ in props or f_ in prop_calls for f_ in fs_)}
+    ctx.fact("I2", "lazy_slots", sorted(lazy))
+    stray = []
+    for m_, q_, fn_ in ctx.prog.all_functions():
+        if "." not in q_ or fn_.name in ("__init__", "__post_init__"):
+            continue
+        cls_ = q_.rsplit(".", 1)[0]
+        if (cls_, fn_.name) in props or (cls_, fn_.name) in prop_calls:
+            continue
+        for x_ in own_nodes(fn_):
+            if isinstance(x_, ast.Attribute) and isinstance(x_.ctx, ast.Load) and x_.attr in lazy and isinstance(x_.value, ast.Name):
+                stray.append((q_, x_))
+    if len(lazy) < 4:
+        raise AnalysisError("I2", "-", f"only {len(lazy)} lazily filled slots recognised (confirmed: 7)")
+    ctx.ob("I2", stray[0][1] if stray else ctx.fn(AK + "volume.py", "Volume.files", "I2"), "whether an element has been realised yet is consulted only by the property that realises it", not stray,
+           "" if not stray else f"{stray[0][0]} reads `{norm(stray[0][1])}`: its answer depends on whether an earlier request already realised the element", inst="memo-state-private")
+    ctx.ob("I2", resets[0][1] if resets else ctx.fn(AK + "volume.py", "Volume.files", "I2"), "what an element has realised stays realised: a memo slot is emptied only when the element is constructed",
+           not resets, "" if not resets else f"`{norm(resets[0][1])}` in {resets[0][2]}: the next access realises the children again - with whatever the shared parsing context holds by then",
+           inst="memo-reset")
     cases = [
         (AK + "volume.py", "Volume.files", "Volume._realize_files", "accumulates into self._files"),
         (AK + "image.py", "AkaiImageParser.partitions", "AkaiImageParser._load_partitions", "parses from the current position of the shared image stream"),
